@@ -171,3 +171,206 @@ Proof.
     apply perm_swap.
   - eapply adj_equiv_trans; eassumption.
 Qed.
+
+(* ---------------------------------------------------------------- 4. sorting siblings *)
+From Coq Require Import Lqa.
+From Knut Require Import Proofs.DecProofs Proofs.CheckPerm.
+
+(* Decimal.LessThan compares values *)
+Lemma coef_neg_value d : (coef d < 0)%Z <-> (dvalue d < 0)%Q.
+Proof.
+  unfold dvalue. pose proof (Qpower_ten_pos (ex d)) as Hp. split; intros H.
+  - assert (H1 : (inject_Z (coef d) < 0)%Q) by (rewrite (Zlt_Qlt (coef d) 0) in H; exact H).
+    assert (H2 : (inject_Z (coef d) * Qpower ten (ex d) < 0 * Qpower ten (ex d))%Q)
+      by (apply Qmult_lt_compat_r; assumption).
+    lra.
+  - destruct (Z_lt_le_dec (coef d) 0) as [Hlt|Hge]; [exact Hlt|exfalso].
+    assert (H1 : (0 <= inject_Z (coef d))%Q) by (rewrite (Zle_Qle 0 (coef d)) in Hge; exact Hge).
+    assert (H2 : (0 <= inject_Z (coef d) * Qpower ten (ex d))%Q) by (apply Qmult_le_0_compat; lra).
+    lra.
+Qed.
+
+Lemma less_than_value a b : less_than a b = true <-> (dvalue a < dvalue b)%Q.
+Proof.
+  unfold less_than, cmp.
+  assert (Hs : (let '(p, q) := rescale_pair a b in coef p - coef q)%Z = coef (sub a b)).
+  { unfold sub. destruct (rescale_pair a b). reflexivity. }
+  assert (Hz : (coef (sub a b) < 0)%Z <-> (dvalue a < dvalue b)%Q).
+  { rewrite coef_neg_value, dvalue_sub. split; intros H; lra. }
+  rewrite <- Hz, <- Hs. destruct (rescale_pair a b) as [p q].
+  destruct (coef p ?= coef q)%Z eqn:E.
+  - apply Z.compare_eq in E. split; [discriminate|lia].
+  - rewrite Z.compare_lt_iff in E. split; [lia|reflexivity].
+  - rewrite Z.compare_gt_iff in E. split; [discriminate|lia].
+Qed.
+
+Lemma less_than_irrefl a : less_than a a = false.
+Proof.
+  destruct (less_than a a) eqn:E; [|reflexivity]. apply less_than_value in E. lra.
+Qed.
+
+Lemma less_than_trans a b c : less_than a b = true -> less_than b c = true -> less_than a c = true.
+Proof. rewrite !less_than_value. lra. Qed.
+
+Lemma less_than_cotrans a b c : less_than a b = true -> less_than a c = true \/ less_than c b = true.
+Proof.
+  rewrite !less_than_value. intros H.
+  destruct (Qlt_le_dec (dvalue a) (dvalue c)) as [H1|H1]; [left; exact H1|right; lra].
+Qed.
+
+(* the sums that make a weight: `for _, ch := range n.Children { w = w.Add(ch.Value.Weight) }`
+   and Amounts.SumOver range over maps; decimal addition is exact, so any order gives the
+   same decimal (coefficient and exponent) *)
+Lemma fold_add_perm {B} (f : B -> dec) l1 l2 : Permutation l1 l2 ->
+  forall w, fold_left (fun w c => add w (f c)) l1 w = fold_left (fun w c => add w (f c)) l2 w.
+Proof.
+  intros P. apply fold_left_perm; [|exact P].
+  intros a x y. rewrite !add_assoc. f_equal. apply add_comm.
+Qed.
+
+Theorem node_weight_perm valued s p hv a1 a2 ch1 ch2 :
+  Permutation a1 a2 -> Permutation ch1 ch2 ->
+  node_weight valued (Node s p hv a1 ch1) = node_weight valued (Node s p hv a2 ch2).
+Proof.
+  intros Pa Pc. cbn [node_weight].
+  rewrite (fold_add_perm (node_weight valued) ch1 ch2 Pc).
+  destruct valued; [|reflexivity].
+  rewrite (fold_add_perm (fun kv : rkey * dec => snd kv) a1 a2 Pa). reflexivity.
+Qed.
+
+(* the three comparators between siblings *)
+Definition by_rank (a b : node) : bool := top_ltb a b.
+Definition by_name (a b : node) : bool := str_ltb (n_seg a) (n_seg b).
+Definition by_weight (valued : bool) (a b : node) : bool := less_than (node_weight valued a) (node_weight valued b).
+(* SortWeighted since bffd269: weight, then name *)
+Definition by_weight_name (valued : bool) : node -> node -> bool := lex (by_weight valued) by_name.
+
+
+Lemma by_name_irrefl a : by_name a a = false.
+Proof. apply str_ltb_irrefl. Qed.
+Lemma by_name_trans a b c : by_name a b = true -> by_name b c = true -> by_name a c = true.
+Proof. apply str_ltb_trans. Qed.
+Lemma by_name_cotrans a b c : by_name a b = true -> by_name a c = true \/ by_name c b = true.
+Proof. apply (klt_cotrans str_ltb str_ltb_trans str_ltb_total). Qed.
+Lemma eqv_by_name a b : eqv by_name a b = true <-> n_seg a = n_seg b.
+Proof. apply (eqv_by_key str_ltb n_seg str_ltb_irrefl str_ltb_total). Qed.
+
+Lemma by_weight_irrefl valued a : by_weight valued a a = false.
+Proof. apply less_than_irrefl. Qed.
+Lemma by_weight_trans valued a b c : by_weight valued a b = true -> by_weight valued b c = true -> by_weight valued a c = true.
+Proof. apply less_than_trans. Qed.
+Lemma by_weight_cotrans valued a b c : by_weight valued a b = true -> by_weight valued a c = true \/ by_weight valued c b = true.
+Proof. apply less_than_cotrans. Qed.
+
+Lemma zltb_trans a b c : (a <? b) = true -> (b <? c) = true -> (a <? c) = true.
+Proof. rewrite !Z.ltb_lt. lia. Qed.
+Lemma zltb_total a b : (a <? b) = false -> (b <? a) = false -> a = b.
+Proof. rewrite !Z.ltb_ge. lia. Qed.
+
+Lemma by_rank_irrefl a : by_rank a a = false.
+Proof. apply Z.ltb_irrefl. Qed.
+Lemma by_rank_trans a b c : by_rank a b = true -> by_rank b c = true -> by_rank a c = true.
+Proof. apply zltb_trans. Qed.
+Lemma by_rank_cotrans a b c : by_rank a b = true -> by_rank a c = true \/ by_rank c b = true.
+Proof. apply (klt_cotrans Z.ltb zltb_trans zltb_total). Qed.
+Lemma eqv_by_rank a b : eqv by_rank a b = true <-> acc_rank (n_path a) = acc_rank (n_path b).
+Proof. apply (eqv_by_key Z.ltb (fun n => acc_rank (n_path n)) Z.ltb_irrefl zltb_total). Qed.
+
+Lemma nodup_map_inj {A B} (f : A -> B) l x y : NoDup (map f l) -> In x l -> In y l -> f x = f y -> x = y.
+Proof.
+  induction l as [|z l IH]; cbn; intros Hnd Hx Hy E; [contradiction|].
+  inversion Hnd as [|? ? Hnot Hnd']; subst. destruct Hx as [Hx|Hx], Hy as [Hy|Hy]; subst.
+  - reflexivity.
+  - exfalso. apply Hnot. rewrite E. apply in_map. exact Hy.
+  - exfalso. apply Hnot. rewrite <- E. apply in_map. exact Hx.
+  - apply IH; assumption.
+Qed.
+
+(* the children of a node are the values of a map keyed by segment: distinct names, any order.
+   With the comparators of the repaired code the sorted list does not depend on that order. *)
+Theorem sort_weight_name_unique valued l1 l2 :
+  Permutation l1 l2 -> NoDup (map n_seg l1) ->
+  sort_by (by_weight_name valued) l1 = sort_by (by_weight_name valued) l2.
+Proof.
+  intros P Hnd. unfold by_weight_name.
+  apply (sort_by_perm_inj _
+           (lex_irrefl _ _ (by_weight_irrefl valued) by_name_irrefl)
+           (lex_trans _ _ (by_weight_trans valued) (by_weight_cotrans valued) by_name_trans)
+           (lex_cotrans _ _ (by_weight_cotrans valued) by_name_cotrans) l1 l2 P).
+  intros x y Hx Hy E. apply eqv_lex in E. destruct E as [_ E]. apply eqv_by_name in E.
+  exact (nodup_map_inj n_seg l1 x y Hnd Hx Hy E).
+Qed.
+
+Theorem sort_name_unique l1 l2 :
+  Permutation l1 l2 -> NoDup (map n_seg l1) -> sort_by by_name l1 = sort_by by_name l2.
+Proof.
+  intros P Hnd. apply (sort_by_perm_inj _ by_name_irrefl by_name_trans by_name_cotrans l1 l2 P).
+  intros x y Hx Hy E. apply eqv_by_name in E. exact (nodup_map_inj n_seg l1 x y Hnd Hx Hy E).
+Qed.
+
+(* top level: the account types; the (at most five) top-level accounts have distinct types *)
+Theorem sort_rank_unique l1 l2 :
+  Permutation l1 l2 -> NoDup (map (fun n => acc_rank (n_path n)) l1) -> sort_by by_rank l1 = sort_by by_rank l2.
+Proof.
+  intros P Hnd. apply (sort_by_perm_inj _ by_rank_irrefl by_rank_trans by_rank_cotrans l1 l2 P).
+  intros x y Hx Hy E. apply eqv_by_rank in E.
+  exact (nodup_map_inj (fun n => acc_rank (n_path n)) l1 x y Hnd Hx Hy E).
+Qed.
+
+(* the model keeps the children in name order and sorts them stably by weight alone
+   (Model/Report.v sibling_ltb): that is the sort by weight, then name *)
+Theorem model_sort_is_tiebreak valued l :
+  StronglySorted (fun a b => by_name a b = true) l ->
+  sort_by (by_weight valued) l = sort_by (by_weight_name valued) l.
+Proof. apply (sort_by_tiebreak _ _ by_name_irrefl by_name_trans). Qed.
+
+(* Model/Report.v [sibling_ltb] on siblings below the top level, and at the top level *)
+Lemma sibling_ltb_below alpha valued a b :
+  acc_level (n_path a) <> 1 ->
+  sibling_ltb alpha valued a b = if alpha then by_name a b else by_weight valued a b.
+Proof.
+  intros H. unfold sibling_ltb. apply Z.eqb_neq in H. rewrite H. reflexivity.
+Qed.
+
+Lemma sibling_ltb_top alpha valued a b :
+  acc_level (n_path a) = 1 -> acc_level (n_path b) = 1 -> sibling_ltb alpha valued a b = by_rank a b.
+Proof. intros Ha Hb. unfold sibling_ltb. rewrite Ha, Hb. reflexivity. Qed.
+
+(* the model's sorted children = the Go comparator applied to any enumeration [l'] of the
+   children map *)
+Theorem sibling_sort_order_free alpha valued l l' :
+  StronglySorted (fun a b => by_name a b = true) l -> NoDup (map n_seg l) -> Permutation l l' ->
+  (forall n, In n l -> acc_level (n_path n) <> 1) ->
+  sort_by (sibling_ltb alpha valued) l = sort_by (if alpha then by_name else by_weight_name valued) l'.
+Proof.
+  intros Hs Hnd P Hlev.
+  rewrite (sort_by_ext_in (sibling_ltb alpha valued) (if alpha then by_name else by_weight valued) l).
+  - destruct alpha.
+    + apply sort_name_unique; assumption.
+    + rewrite (model_sort_is_tiebreak valued l Hs). apply sort_weight_name_unique; assumption.
+  - intros x y Hx Hy. rewrite (sibling_ltb_below alpha valued x y (Hlev x Hx)). destruct alpha; reflexivity.
+Qed.
+
+Theorem top_sort_order_free alpha valued l l' :
+  NoDup (map (fun n => acc_rank (n_path n)) l) -> Permutation l l' ->
+  (forall n, In n l -> acc_level (n_path n) = 1) ->
+  sort_by (sibling_ltb alpha valued) l = sort_by by_rank l'.
+Proof.
+  intros Hnd P Hlev.
+  rewrite (sort_by_ext_in (sibling_ltb alpha valued) by_rank l).
+  - apply sort_rank_unique; assumption.
+  - intros x y Hx Hy. apply sibling_ltb_top; apply Hlev; assumption.
+Qed.
+
+(* before bffd269: weight only.  Two accounts without valued amounts (an unvalued report: all
+   weights are zero) come out in the order in which the map was enumerated. *)
+Definition w_node (name : str) : node := Node name [s_Assets; name] true [] [].
+
+Theorem pinned_sort_refuted :
+  exists l1 l2, Permutation l1 l2 /\ NoDup (map n_seg l1) /\
+    sort_by (by_weight false) l1 <> sort_by (by_weight false) l2.
+Proof.
+  exists [w_node [65]; w_node [66]], [w_node [66]; w_node [65]]. split; [apply perm_swap|]. split.
+  - cbn. repeat constructor; cbn; intuition discriminate.
+  - vm_compute. discriminate.
+Qed.
